@@ -200,7 +200,10 @@ def r4(run, ctx):
             # delegates to arbiter.get_watcher (which lower-cases)
             run.check('R4', bool(hits), '_get_watcher resolves through the arbiter index', f, f.node)
             continue
-        run.check('R4', bool(hits) and all('.lower()' in norm_text(k) for n, k in hits),
+        from sa.dataflow import reaching_defs
+        rd = reaching_defs(ctx, f)
+        run.check('R4', bool(hits) and all('.lower()' in a.text() for n, k in hits
+                                           for a in rd.expand(n, k)),
                   '%s lower-cases the name before the lookup' % f.qualname, f,
                   hits[0][0].ast if hits else f.node,
                   '%s looks the name up case-sensitively: a request naming the watcher in another '
